@@ -121,6 +121,7 @@ def gen_versions(rng):
     null_val = rng.choice([0, 0, 0x1234])
     vorder = rng.choice([None, None, ['.gnu.version_d', '.gnu.version_r', '.gnu.version'], ['.gnu.version_r', '.gnu.version', '.gnu.version_d']])
     after_null = [(1, so[LIBS[1]]), (0, 0)] if rng.random() < 0.3 else []
+    with_rel = rng.random() < 0.6 and machine != 243       # (the clone has no relocation names for RISC-V)
     # addresses in the upper half of the address space (kernel-style images, MIPS kseg0): values are unsigned
     top = 1 << (cls - 1)
     high_tags = [(12, top | 0x1000), (13, (1 << cls) - 16), (3, top)][:rng.choice([0, 0, 1, 3])]
@@ -163,6 +164,16 @@ def gen_versions(rng):
         if nneed:
             secs.append(elfgen.Sec('.gnu.version_r', 0x6ffffffe, flags=2, data=bytes(vn), link='.dynstr', info=nneed, align=8,
                                    addr=addr.get('.gnu.version_r', 0)))
+        if nsym > 1 and with_rel:
+            # dynamic relocations against the versioned symbols: readelf -r appends the version to the name
+            rtype = {62: 6, 183: 1025, 21: 38, 243: 2, 3: 6, 40: 21, 8: 3}[machine]
+            rela = is64
+            recs = b''
+            for i in range(1, nsym):
+                info_ = (i << 32 | rtype) if is64 else (i << 8 | rtype)
+                recs += struct.pack(E + ('QQq' if is64 else 'II'), *((0x3000 + 8 * i, info_, 0) if rela else (0x3000 + 4 * i, info_)))
+            secs.append(elfgen.Sec('.rela.dyn' if rela else '.rel.dyn', 4 if rela else 9, flags=2, data=recs, link='.dynsym', info=0,
+                                   entsize=len(recs) // (nsym - 1), align=8, addr=addr.get('.rela.dyn' if rela else '.rel.dyn', 0)))
         if vorder:
             head = [x for x in secs if not x.name.startswith('.gnu.version')]
             vs = [x for x in secs if x.name.startswith('.gnu.version')]
